@@ -24,6 +24,8 @@ CONSTANTS Widths,    \* set of leaf widths; one is chosen per behaviour
           MaxW,      \* largest width a handle may reach (compositions / widening multiply)
           FreshOnly, \* TRUE: every call after the first must use the newest handle (exhaustive configs)
           Ops,       \* set of action kinds enabled
+          Shape,     \* <<>> : any call kind at any step; else the kind of call allowed at each step
+          LeafSet,   \* {} : every leaf may be an operand; else only these leaves (deep exhaustive configs)
           AutoSimp,  \* TRUE: append simplify() of every built handle to each behaviour
           MapSpan,   \* partial-write configs: only the low MapSpan bits of r are written
           MapSrc,    \* {} : any handle may be stored by mset; else only these (exhaustive partial-write configs)
@@ -34,6 +36,9 @@ VARIABLES W, pool, h, emitted
 vars == <<W, pool, h, emitted>>
 
 NLeaves == 13
+ShapeAny == <<>>                                  \* cfg files cannot write tuples
+ShapeBinSlice == <<"bin", "slice">>
+ShapeBinBinSlice == <<"bin", "bin", "slice">>
 BinArith == {"+", "-", "*", "&", "|", "^"}
 BinCmp   == {"==", "!=", "<", "<=", ">", ">=", "<.", ">=."}
 BinWide  == {"**", "/", "%"}
@@ -48,8 +53,9 @@ N == Len(pool)
 Steps == Len(h)
 Uses(r) == ~FreshOnly \/ Steps = 0 \/ N \in r      \* r: set of operand indices of the call
 
+Allowed(kind) == kind \in Ops /\ (Shape = <<>> \/ (Steps + 1 <= Len(Shape) /\ Shape[Steps + 1] = kind))
 Pick1(S) == IF Rand /\ S # {} THEN {RandomElement(S)} ELSE S
-All == 1..N
+All == IF LeafSet = {} THEN 1..N ELSE LeafSet \cup ((NLeaves + 1)..N)   \* handles calls may take as operands
 Same(i) == {j \in All : pool[j] = pool[i]}
 Bits1 == {c \in All : pool[c] = 1}
 
@@ -60,61 +66,61 @@ BinSyms == IF Rand THEN Pick1(BinArith) \cup Pick1(BinCmp) \cup Pick1(BinWide) \
            ELSE BinArith \cup BinCmp \cup BinWide \cup BinShift
 Bin == \E s \in BinSyms, i \in Pick1(All) :
        \E j \in Pick1(IF s \in BinShift THEN All ELSE Same(i)) :
-         /\ "bin" \in Ops /\ Uses({i, j})
+         /\ Allowed("bin") /\ Uses({i, j})
          /\ (s \notin BinShift => pool[i] = pool[j])
          /\ (s = "**" => 2 * pool[i] <= MaxW)
          /\ Push(IF s \in BinCmp THEN 1 ELSE IF s = "**" THEN 2 * pool[i] ELSE pool[i],
                  [act |-> "bin", s |-> s, i |-> i, j |-> j])
 
 Un == \E s \in Pick1({"-", "~"}), i \in Pick1(All) :
-         /\ "un" \in Ops /\ Uses({i})
+         /\ Allowed("un") /\ Uses({i})
          /\ Push(pool[i], [act |-> "un", s |-> s, i |-> i])
 
 Slice == \E i \in Pick1(All) : \E pos \in Pick1(0..(pool[i] - 1)) : \E n \in Pick1(1..(pool[i] - pos)) :
-         /\ "slice" \in Ops /\ Uses({i})
+         /\ Allowed("slice") /\ Uses({i})
          /\ (pool[i] > 8 /\ ~Rand => (pos \in {0, 1, 7, 8, pool[i] \div 2, pool[i] - 1} /\ n \in {1, 7, 8, pool[i] \div 2, pool[i] - pos}))
          /\ Push(n, [act |-> "slice", i |-> i, pos |-> pos, n |-> n])
 
 Compose == \E i \in Pick1(All), j \in Pick1(All) :
-         /\ "compose" \in Ops /\ Uses({i, j})
+         /\ Allowed("compose") /\ Uses({i, j})
          /\ pool[i] + pool[j] <= MaxW
          /\ Push(pool[i] + pool[j], [act |-> "compose", i |-> i, j |-> j])      \* i = low part
 
 Cond == \E c \in Pick1(Bits1), i \in Pick1(All) : \E j \in Pick1(Same(i)) :
-         /\ "cond" \in Ops /\ Uses({c, i, j})
+         /\ Allowed("cond") /\ Uses({c, i, j})
          /\ pool[c] = 1 /\ pool[i] = pool[j]
          /\ Push(pool[i], [act |-> "cond", c |-> c, i |-> i, j |-> j])
 
 Ext == \E i \in Pick1(All), sg \in Pick1({0, 1}), n \in Pick1({1, 8, W}) :
-         /\ "ext" \in Ops /\ Uses({i})
+         /\ Allowed("ext") /\ Uses({i})
          /\ pool[i] + n <= MaxW
          /\ Push(pool[i] + n, [act |-> "ext", i |-> i, sg |-> sg, w |-> pool[i] + n])
 
 (* e.simplify with options: a new handle (possibly the same object) that must mean the same *)
 Simp == \E i \in Pick1((NLeaves + 1)..N), bs \in Pick1({0, 1}), wd \in Pick1({0, 1}) :
-         /\ "simplify" \in Ops /\ Uses({i})
+         /\ Allowed("simplify") /\ Uses({i})
          /\ Push(pool[i], [act |-> "simplify", i |-> i, bitslice |-> bs, widening |-> wd])
 
 (* pickle round trip of a handle *)
 Pick == \E i \in Pick1(12..N) :
-         /\ "pickle" \in Ops /\ Uses({i})
+         /\ Allowed("pickle") /\ Uses({i})
          /\ Push(pool[i], [act |-> "pickle", i |-> i])
 
 (* m[loc] = handle; handle' = m[loc], optionally after a pickle round trip of the whole map (pk = 1):
    storing an expression in a map and reading it back gives an expression that means the same, and
    leaves the stored one (and every other handle) alone *)
 MapW == \E i \in Pick1(All), pk \in Pick1({0, 1}) :
-         /\ "mapw" \in Ops /\ Uses({i})
+         /\ Allowed("mapw") /\ Uses({i})
          /\ Push(pool[i], [act |-> "mapw", i |-> i, pk |-> pk])
 
 (* evaluation in a symbolic environment: register a is bound to handle j, handle i is evaluated *)
 Subst == \E i \in Pick1(All) : \E j \in Pick1({k \in All : pool[k] = W}) :
-         /\ "subst" \in Ops /\ Uses({i, j})
+         /\ Allowed("subst") /\ Uses({i, j})
          /\ Push(pool[i], [act |-> "subst", i |-> i, j |-> j])
 
 (* declare a handle signed / unsigned (exp.signed(), exp.unsigned(): the same object is returned) *)
 SetSf == \E i \in Pick1((NLeaves + 1)..N), sf \in {0, 1} :
-         /\ "setsf" \in Ops /\ Uses({i})
+         /\ Allowed("setsf") /\ Uses({i})
          /\ Push(pool[i], [act |-> "setsf", i |-> i, sf |-> sf])
 
 (* one mapper M lives through the behaviour; r is a register of 2W bits.
@@ -124,10 +130,10 @@ MSet == \E j \in Pick1(IF MapSrc = {} THEN All ELSE MapSrc) :
         \E lo \in Pick1(IF MapSrc = {} THEN 0..(pool[j] - 1) ELSE {0}) :
         \E n \in Pick1(1..(pool[j] - lo)) :
         \E pos \in Pick1({p \in 0..(2 * W - 1) : p + n <= (IF MapSrc = {} THEN 2 * W ELSE MapSpan)}) :
-         /\ "mset" \in Ops /\ (MapSrc = {} => Uses({j}))
+         /\ Allowed("mset") /\ (MapSrc = {} => Uses({j}))
          /\ (MapSrc # {} => Steps < MaxSteps - 1)      \* partial-write configs: the last call is the read back
          /\ Push(n, [act |-> "mset", j |-> j, lo |-> lo, pos |-> pos, n |-> n])   \* value = handle j [lo : lo+n]
-MGet == /\ "mget" \in Ops /\ 2 * W <= MaxW /\ (IF Steps = 0 THEN TRUE ELSE h[Steps].act # "mget")
+MGet == /\ Allowed("mget") /\ 2 * W <= MaxW /\ (IF Steps = 0 THEN TRUE ELSE h[Steps].act # "mget")
         /\ (MapSrc # {} => Steps >= 2)               \* partial-write configs: read back after >= 2 writes
         /\ Push(2 * W, [act |-> "mget"])
 
